@@ -135,7 +135,7 @@ Lemma mu_step_raw s e : reach s -> wf_ev e -> is_call e = false -> mu (fst (step
 Proof.
   intros Hr Hwf Hc. destruct (reach_inv12 s Hr) as [H1 H2].
   assert (Hnj : 1 <= n_jobs (c s)) by (destruct H1 as [[A _] _ _ _ _]; exact A).
-  destruct e as [cf n f|b|t o|t b| | | ]; [discriminate Hc| | | | | | ]; cbn [step_raw].
+  destruct e as [cf n f|b|t o|t b| | | |b]; [discriminate Hc| | | | | | | ]; cbn [step_raw].
   - cbn [wf_ev] in Hwf. destruct (phase s) eqn:Hph; cbn [fst]; try lia.
     + pose proof (dispatch_one_batch_shape s b false Hnj Hwf) as Hsh.
       destruct (dispatch_one_batch s b false) as [s1 r]. cbn [fst snd] in Hsh.
@@ -154,6 +154,20 @@ Proof.
   - destruct (want s); [|cbn; lia]. destruct (timeout_target s) as [j|]; [|cbn; lia].
     destruct (status_of s j); cbn [fst]; try lia.
     unfold mu, todo. cbn [aborting N taken ready inflight cbmid do_timeout]. destruct (aborting s); lia.
+  - (* the backend refuses the batch *)
+    cbn [wf_ev] in Hwf. destruct (phase s) eqn:Hph; cbn [fst]; try lia.
+    + pose proof (dispatch_one_batch_shape s b false Hnj Hwf) as Hsh.
+      destruct (dispatch_one_batch s b false) as [s1 r]. cbn [fst snd] in Hsh.
+      destruct (mu_dispatch _ _ _ _ _ H1 Hsh) as [Hd _].
+      destruct (r && negb (aborting s1)); cbn [fst].
+      * pose proof (mu_finalize s1 Finished true). lia.
+      * destruct (aborting _); rewrite ?mu_end_start, ?mu_set_flags; exact Hd.
+    + pose proof (dispatch_one_batch_shape s b false Hnj Hwf) as Hsh.
+      destruct (dispatch_one_batch s b false) as [s1 r]. cbn [fst snd] in Hsh.
+      destruct (mu_dispatch _ _ _ _ _ H1 Hsh) as [Hd _].
+      destruct (r && negb (aborting s1)); cbn [fst].
+      * pose proof (mu_finalize s1 Finished true). lia.
+      * destruct r; [destruct (aborting s1)|]; cbn [fst]; rewrite ?mu_end_start; exact Hd.
 Qed.
 
 (* T_a: within a call mu never increases, whatever the environment and the consumer do *)
